@@ -1,32 +1,86 @@
 /*
- * unix_write_blk64 / unix_read_blk64 against the single-cell coherence abstraction (see cache_common.h), STRICTLY
- * modular: find_cached_block, reuse_cache, flush_cached_blocks, raw_read_blk, raw_write_blk and memcpy are all replaced
- * by the contracts their own units enforce (cache.c, raw.c); the `while (count > 0)` loops carry in-place loop contracts
- * (named anchors in lib/ext2fs/unix_io.c, invariant text below).
+ * unix_write_blk64 / unix_read_blk64 (lib/ext2fs/unix_io.c) against the single-cell coherence abstraction of
+ * cache_common.h.
  *
- * Each function has ONE contract; it is enforced by several harnesses that partition the requests:
- *   *_cached : 1 <= count <= WRITE_DIRECT_SIZE (4), cache on        -> the loop
- *   *_direct : count < 0 (byte count) or count > 4, or IO_FLAG_NOCACHE -> flush (+invalidate) and one device request
+ * Callees: reuse_cache, flush_cached_blocks, raw_read_blk, raw_write_blk are REPLACED by the contracts their own units
+ * enforce (cache.c, raw.c).  Two deliberate deviations from "everything by contract", both measured, not guessed:
+ *  - find_cached_block is the REAL function (its 8-iteration loop is unwound, CACHE_SIZE is a constant of the code; its
+ *    contract is enforced separately in cache.c).  A DFCC-replaced call can only return a pointer with a symbolic byte
+ *    offset into `struct unix_private_data`; every later access through it then goes through a byte-level update of
+ *    the whole structure (12 min, 27 M clauses for one request), and a replaced call that returns one of eight entries
+ *    gives CBMC nothing the real eight-way search does not.
+ *  - memcpy is CBMC's own model: the block size is a compile-time constant of each unit (CFG_BS), so the copies have
+ *    constant length and are exact.
+ * Loops: `while (count > 0)` runs at most WRITE_DIRECT_SIZE / READ_DIRECT_SIZE = 4 times on the cached path (constants
+ * of the code).  In-place DFCC loop contracts were tried first: with a loop write set that has to name block,
+ * access_time and the three state bits of each of the eight entries, DFCC's havoc-through-the-write-set makes the solver
+ * run out of 12 GB (symbolic execution alone: 9 min).  The units therefore fix `count` per unit and unwind:
+ *   *_c1 : count == 1   (one iteration: the generic step of the loop - any block, any cache state, any write-through
+ *                        result; level U for single-block requests, which is what the library issues for metadata)
+ *   *_c2 : count == 2   (two iterations: includes the interplay iteration 1 -> iteration 2: eviction of the entry just
+ *                        written, the write-through "device first, cache afterwards" window)
+ *   *_direct : count < 0 (byte count), count > 4, or IO_FLAG_NOCACHE: flush (+invalidate) and one device request
+ * count == 3, 4 do not finish within 15 min and are not claimed (level of the multi-block cached path: B(2)).
+ * Block size: CFG_BS = 16 is a configuration bound for tractability - the functions only add the block size to a cursor
+ * and pass it on as a length; the *_c1 units are repeated with the smallest real block size, 1024.
  */
 /* VERIF-UNIT
 {
- "name": "unix_write_blk64",
+ "name": "unix_write_blk64_c1",
  "props": ["C17"],
  "level": "U",
  "tier": "wip",
  "harness": "h_write_cached",
  "enforce": ["unix_write_blk64"],
- "replace": ["find_cached_block", "reuse_cache", "flush_cached_blocks", "raw_write_blk", "memcpy"],
- "loop_contracts": true,
+ "replace": ["reuse_cache", "flush_cached_blocks", "raw_write_blk"],
  "unwind": 64,
- "unwindset": {"build_channel.0": 9},
- "unwind_reason": "only the harness loop that builds the 8 cache entries and DFCC library loops are unwound; the function's loop is closed by its loop contract",
- "defines": ["CFG_BS=16", "CFG_NO_PTHREAD"],
+ "unwindset": {"build_channel.0": 9, "find_cached_block.0": 9, "unix_write_blk64.0": 2},
+ "unwind_reason": "count == 1 in this unit: one iteration, unwinding assertion on; CACHE_SIZE is the constant 8; 64 serves the DFCC library loops over assigns targets",
+ "defines": ["CFG_BS=16", "CFG_COUNT=1", "CFG_NO_PTHREAD"],
  "functions": ["lib/ext2fs/unix_io.c:unix_write_blk64"],
- "assumes": ["IO_FLAG_THREADS clear", "no write_error handler installed", "block size in {16, 1024}: 16 is a configuration bound for tractability (the function only adds the block size to a cursor and passes it on as a length), 1024 the smallest real block size", "fewer than 2^31-512 cache accesses per channel (int access clock)", "caller's buffer does not alias a cache buffer", "block numbers below 2^46", "CHANNEL_FLAGS_WRITETHROUGH is set before any block is dirtied (nothing in the tree toggles it)"],
+ "assumes": ["IO_FLAG_THREADS clear; built without HAVE_PTHREAD (see proofs/unixio/config.h)", "no write_error handler installed", "block size 16 (configuration bound, see unix_write_blk64_c1_1k for 1024)", "fewer than 2^31-512 cache accesses per channel (int access clock)", "caller's buffer does not alias a cache buffer", "block numbers below 2^46, 0 <= data->offset < 2^50", "CHANNEL_FLAGS_WRITETHROUGH is set before any block is dirtied (nothing in the tree toggles it)"],
  "backend": "cadical",
- "timeout": 300,
- "cbmc_flags": ["--object-bits", "10"],
+ "timeout": 400,
+ "native": false
+}
+*/
+/* VERIF-UNIT
+{
+ "name": "unix_write_blk64_c1_1k",
+ "props": ["C17"],
+ "level": "U",
+ "tier": "wip",
+ "harness": "h_write_cached",
+ "enforce": ["unix_write_blk64"],
+ "replace": ["reuse_cache", "flush_cached_blocks", "raw_write_blk"],
+ "unwind": 64,
+ "unwindset": {"build_channel.0": 9, "find_cached_block.0": 9, "unix_write_blk64.0": 2},
+ "unwind_reason": "count == 1 in this unit: one iteration, unwinding assertion on; CACHE_SIZE is the constant 8",
+ "defines": ["CFG_BS=1024", "CFG_COUNT=1", "CFG_NO_PTHREAD"],
+ "functions": ["lib/ext2fs/unix_io.c:unix_write_blk64"],
+ "assumes": ["as unix_write_blk64_c1, block size 1024"],
+ "backend": "cadical",
+ "timeout": 600,
+ "native": false
+}
+*/
+/* VERIF-UNIT
+{
+ "name": "unix_write_blk64_c2",
+ "props": ["C17"],
+ "level": "B(2)",
+ "tier": "wip",
+ "harness": "h_write_cached",
+ "enforce": ["unix_write_blk64"],
+ "replace": ["reuse_cache", "flush_cached_blocks", "raw_write_blk"],
+ "unwind": 64,
+ "unwindset": {"build_channel.0": 9, "find_cached_block.0": 9, "unix_write_blk64.0": 3},
+ "unwind_reason": "count == 2 in this unit: two iterations, unwinding assertion on; CACHE_SIZE is the constant 8",
+ "defines": ["CFG_BS=16", "CFG_COUNT=2", "CFG_NO_PTHREAD"],
+ "functions": ["lib/ext2fs/unix_io.c:unix_write_blk64"],
+ "assumes": ["as unix_write_blk64_c1; two-block requests only (three and four blocks, the other cached sizes, do not finish)"],
+ "backend": "cadical",
+ "timeout": 900,
  "native": false
 }
 */
@@ -38,113 +92,92 @@
  "tier": "wip",
  "harness": "h_write_direct",
  "enforce": ["unix_write_blk64"],
- "replace": ["find_cached_block", "reuse_cache", "flush_cached_blocks", "raw_write_blk", "memcpy"],
- "loop_contracts": true,
+ "replace": ["reuse_cache", "flush_cached_blocks", "raw_write_blk"],
  "unwind": 64,
- "unwindset": {"build_channel.0": 9},
- "unwind_reason": "only the harness loop that builds the 8 cache entries and DFCC library loops are unwound",
+ "unwindset": {"build_channel.0": 9, "find_cached_block.0": 9, "unix_write_blk64.0": 1},
+ "unwind_reason": "direct path (count < 0, count > WRITE_DIRECT_SIZE or IO_FLAG_NOCACHE): the loop is not entered, unwinding assertion on",
  "defines": ["CFG_BS=16", "CFG_NO_PTHREAD"],
  "functions": ["lib/ext2fs/unix_io.c:unix_write_blk64"],
- "assumes": ["IO_FLAG_THREADS clear", "no write_error handler installed", "block size in {16, 1024} (16: configuration bound)", "requests of at most 8 blocks / 8*block_size bytes (the path is one flush and one device request whatever the size)", "block numbers below 2^46"],
+ "assumes": ["IO_FLAG_THREADS clear; built without HAVE_PTHREAD", "no write_error handler installed", "block size 16 (configuration bound; the path is one flush and one device request whatever the size)", "requests of at most 64 blocks / 1024 bytes", "block numbers below 2^46"],
  "backend": "cadical",
- "timeout": 300,
- "cbmc_flags": ["--object-bits", "10"],
+ "timeout": 400,
  "native": false
 }
 */
 /* VERIF-UNIT
 {
- "name": "unix_write_blk64_unw",
- "props": ["C17"],
- "level": "U/k",
- "tier": "wip",
- "harness": "h_write_cached",
- "enforce": ["unix_write_blk64"],
- "replace": ["find_cached_block", "reuse_cache", "flush_cached_blocks", "raw_write_blk", "memcpy"],
- "unwind": 64,
- "unwindset": {"build_channel.0": 9, "unix_write_blk64.0": 5},
- "unwind_reason": "cached path only for 1..WRITE_DIRECT_SIZE(4) blocks",
- "defines": ["CFG_BS=16", "CFG_NO_PTHREAD"],
- "functions": ["lib/ext2fs/unix_io.c:unix_write_blk64"],
- "assumes": [],
- "backend": "cadical",
- "timeout": 300,
- "cbmc_flags": ["--object-bits", "10"],
- "native": false
-}
-*/
-/* VERIF-UNIT
-{
- "name": "unix_write_blk64_rf",
+ "name": "unix_read_blk64_c1",
  "props": ["C17"],
  "level": "U",
  "tier": "wip",
- "harness": "h_write_cached",
- "enforce": ["unix_write_blk64"],
- "replace": ["flush_cached_blocks", "raw_write_blk", "memcpy"],
- "loop_contracts": true,
+ "harness": "h_read_cached",
+ "enforce": ["unix_read_blk64"],
+ "replace": ["reuse_cache", "flush_cached_blocks", "raw_write_blk", "raw_read_blk"],
  "unwind": 64,
- "unwindset": {"build_channel.0": 9, "find_cached_block.0": 9},
- "unwind_reason": "only the harness loop that builds the 8 cache entries and DFCC library loops are unwound; the function's loop is closed by its loop contract",
- "defines": ["CFG_BS=16", "CFG_NO_PTHREAD"],
- "functions": ["lib/ext2fs/unix_io.c:unix_write_blk64"],
- "assumes": ["IO_FLAG_THREADS clear", "no write_error handler installed", "block size in {16, 1024}: 16 is a configuration bound for tractability (the function only adds the block size to a cursor and passes it on as a length), 1024 the smallest real block size", "fewer than 2^31-512 cache accesses per channel (int access clock)", "caller's buffer does not alias a cache buffer", "block numbers below 2^46", "CHANNEL_FLAGS_WRITETHROUGH is set before any block is dirtied (nothing in the tree toggles it)"],
+ "unwindset": {"build_channel.0": 9, "find_cached_block.0": 9, "unix_read_blk64.0": 2, "unix_read_blk64.1": 1, "unix_read_blk64.2": 2},
+ "unwind_reason": "count == 1 in this unit: at most one pass of the outer loop, no pass of the look-ahead loop, one pass of the fill loop; unwinding assertions on; CACHE_SIZE is the constant 8",
+ "defines": ["CFG_BS=16", "CFG_COUNT=1", "CFG_NO_PTHREAD"],
+ "functions": ["lib/ext2fs/unix_io.c:unix_read_blk64"],
+ "assumes": ["IO_FLAG_THREADS clear; built without HAVE_PTHREAD", "no read_error / write_error handler installed", "block size 16 (configuration bound)", "fewer than 2^31-512 cache accesses per channel", "block numbers below 2^46, 0 <= data->offset < 2^50"],
  "backend": "cadical",
- "timeout": 300,
- "cbmc_flags": ["--object-bits", "10"],
+ "timeout": 400,
  "native": false
 }
 */
 /* VERIF-UNIT
 {
- "name": "unix_write_blk64_unw_rf",
+ "name": "unix_read_blk64_c2",
  "props": ["C17"],
- "level": "U/k",
+ "level": "B(2)",
  "tier": "wip",
- "harness": "h_write_cached",
- "enforce": ["unix_write_blk64"],
- "replace": ["reuse_cache", "flush_cached_blocks", "raw_write_blk"],
+ "harness": "h_read_cached",
+ "enforce": ["unix_read_blk64"],
+ "replace": ["reuse_cache", "flush_cached_blocks", "raw_write_blk", "raw_read_blk"],
  "unwind": 64,
- "unwindset": {"build_channel.0": 9, "find_cached_block.0": 9, "unix_write_blk64.0": 5},
- "unwind_reason": "cached path only for 1..WRITE_DIRECT_SIZE(4) blocks",
- "defines": ["CFG_BS=16", "CFG_NO_PTHREAD", "CFG_COARSE_FRAME", "CFG_COUNT=4"],
- "functions": ["lib/ext2fs/unix_io.c:unix_write_blk64"],
- "assumes": [],
+ "unwindset": {"build_channel.0": 9, "find_cached_block.0": 9, "unix_read_blk64.0": 3, "unix_read_blk64.1": 2, "unix_read_blk64.2": 3},
+ "unwind_reason": "count == 2 in this unit; unwinding assertions on; CACHE_SIZE is the constant 8",
+ "defines": ["CFG_BS=16", "CFG_COUNT=2", "CFG_NO_PTHREAD"],
+ "functions": ["lib/ext2fs/unix_io.c:unix_read_blk64"],
+ "assumes": ["as unix_read_blk64_c1; two-block requests only"],
  "backend": "cadical",
- "timeout": 300,
+ "timeout": 900,
  "native": false
 }
 */
-
-/* ---- invariant of unix_write_blk64's loop (expanded inside the real function: channel, block, count, buf, data, cache,
- *      reuse, retval, cp, writethrough are its variables) ---- */
-#define W_DONE ((unsigned long long)(g_count0 - count))
-#define W_PASSED (g_covered && block > g_bstar)
-#define VERIF_INV_UNIX_WRITE_BLK64_CACHE \
-	__CPROVER_assigns(count, block, cp, cache, reuse, GALL_ENTRY_FIELDS, \
-		DATA.access_time, DATA.io_stats.bytes_written, g_disk, g_nwrites, g_wfail, GALL_CBUFS) \
-	__CPROVER_loop_invariant(0 <= count && count <= g_count0 && block == g_block0 + W_DONE) \
-	__CPROVER_loop_invariant(cp == (const char *)buf + W_DONE * CFG_BS) \
-	__CPROVER_loop_invariant(DATA.access_time >= 0 && DATA.access_time <= 0x7ffffe10 - 2 * count) \
-	__CPROVER_loop_invariant(writethrough ? !ANY(GINUSE_DIRTY) : retval == 0) \
-	__CPROVER_loop_invariant((g_wfail != 0) == (retval != 0)) \
-	__CPROVER_loop_invariant( \
-		(g_covered && !W_PASSED && writethrough) ? (GNMATCH <= 1 && (retval != 0 || g_disk == g_new)) : \
-		(W_PASSED && retval != 0) ? 1 : GCOHERENT_L(W_PASSED ? g_new : g_logical)) \
-	__CPROVER_decreases(count)
-
+/* VERIF-UNIT
+{
+ "name": "unix_read_blk64_direct",
+ "props": ["C17"],
+ "level": "U",
+ "tier": "wip",
+ "harness": "h_read_direct",
+ "enforce": ["unix_read_blk64"],
+ "replace": ["reuse_cache", "flush_cached_blocks", "raw_write_blk", "raw_read_blk"],
+ "unwind": 64,
+ "unwindset": {"build_channel.0": 9, "find_cached_block.0": 9, "unix_read_blk64.0": 1, "unix_read_blk64.1": 1, "unix_read_blk64.2": 1},
+ "unwind_reason": "direct path: no loop is entered, unwinding assertions on",
+ "defines": ["CFG_BS=16", "CFG_NO_PTHREAD"],
+ "functions": ["lib/ext2fs/unix_io.c:unix_read_blk64"],
+ "assumes": ["IO_FLAG_THREADS clear; built without HAVE_PTHREAD", "no read_error / write_error handler installed", "block size 16 (configuration bound)", "requests of at most 64 blocks / 1024 bytes", "block numbers below 2^46"],
+ "backend": "cadical",
+ "timeout": 400,
+ "native": false
+}
+*/
 #include "cache_common.h"
 
 #define PD(ch) ((struct unix_private_data *)(ch)->private_data)
 #define ATIME_ENTRY(d) ((d)->access_time >= 0 && (d)->access_time < 0x7ffffe00)
-#define BLK_MAX (1ULL << 46)
 #define WT(ch) ((ch)->flags & CHANNEL_FLAGS_WRITETHROUGH)
-#define data PD(channel)	/* the frame macros speak of `data` */
-#ifdef CFG_COARSE_FRAME
-#define CACHE_FRAME __CPROVER_object_whole(channel->private_data), ALL_CBUFS
-#else
-#define CACHE_FRAME ALL_ENTRY_FIELDS, data->access_time, ALL_CBUFS
-#endif
+#define REQ_OK(ch, block, count) (RAW_RANGE_OK(ch, PD(ch), block, count) && ((count) < 0 || (block) + (unsigned long long)(count) <= BLK_MAX))
+static int cache_range_ok(io_channel channel, struct unix_private_data *data) { return CACHE_RANGE_OK(channel, data); }
+/* what holds of every channel between calls (representation invariant besides coherence) */
+#define CHAN_OK(ch) ((ch)->magic == EXT2_ET_MAGIC_IO_CHANNEL && PD(ch)->magic == EXT2_ET_MAGIC_UNIX_IO_CHANNEL && \
+	bufs_tied(PD(ch)) && !(PD(ch)->flags & IO_FLAG_THREADS) && PD(ch)->access_time >= 0 && cache_range_ok(ch, PD(ch)) && \
+	(!WT(ch) || !any_dirty(PD(ch))))
+/* frame of both functions: the private data, the eight cache buffers, the lazily normalised alignment, the ghost device */
+#define RW_FRAME(ch) __CPROVER_object_whole((ch)->private_data), ALL_CBUFS, (ch)->align, g_disk, g_nwrites, g_nreads, g_wfail
+
 /*
  * C17, write side.  Statement (from the property, not from the code):
  *   coherent before => after a successful write the cache/device pair is coherent w.r.t. the byte just written when the
@@ -154,37 +187,48 @@
  *   a failed request that does not cover L* leaves L* coherent.
  */
 static errcode_t unix_write_blk64(io_channel channel, unsigned long long block, int count, const void *buf)
-	REQUIRES(channel->magic == EXT2_ET_MAGIC_IO_CHANNEL && PD(channel)->magic == EXT2_ET_MAGIC_UNIX_IO_CHANNEL)
-	REQUIRES(coherent(PD(channel)) && bufs_tied(PD(channel)) && channel->write_error == 0 && !(PD(channel)->flags & IO_FLAG_THREADS))
-	REQUIRES(ATIME_ENTRY(PD(channel)) && block < BLK_MAX && count != 0)
-	REQUIRES(!WT(channel) || !any_dirty(PD(channel)))
-	REQUIRES(g_block0 == block && g_count0 == count && g_wfail == 0)
-	REQUIRES(g_covered == (COVERS(channel, block, count) != 0) && (!g_covered || g_new == BUF_AT(channel, block, count, buf)))
+	REQUIRES(CHAN_OK(channel) && ATIME_ENTRY(PD(channel)) && coherent(PD(channel)) && channel->write_error == 0 && REQ_OK(channel, block, count))
+	REQUIRES(g_wfail == 0 && g_covered == (COVERS(channel, block, count) != 0) &&
+		 (!g_covered || g_new == BUF_AT(channel, block, count, buf)))
 	ENSURES(RET != 0 || coherent_l(PD(channel), g_covered ? g_new : g_logical))
 	ENSURES(RET != 0 || !WT(channel) || !g_covered || g_disk == g_new)
 	ENSURES(!g_wfail || RET != 0)
 	ENSURES(RET == 0 || g_covered || coherent(PD(channel)))
-	ENSURES(!WT(channel) || !any_dirty(PD(channel)))
-	ENSURES(bufs_tied(PD(channel)))
-	#ifdef CFG_COARSE_FRAME
-	ASSIGNS(CACHE_FRAME, g_disk, g_nwrites, g_wfail);
-#else
-	ASSIGNS(CACHE_FRAME, PD(channel)->io_stats.bytes_written, g_disk, g_nwrites, g_wfail);
-#endif
-#undef data
+	ENSURES(CHAN_OK(channel) && ALIGN_STEP(channel) && PD(channel)->access_time <= OLD(PD(channel)->access_time) + 32)
+	ASSIGNS(RW_FRAME(channel));
 
-static unsigned char *UBUF;	/* the caller's buffer */
+/*
+ * C17, read side: a successful read that covers L* returns the byte most recently written there, whether it comes from
+ * the cache or from the device; reading keeps the pair coherent whatever the outcome (evictions on its behalf are
+ * write-backs); a failed write-back is reported.
+ */
+static errcode_t unix_read_blk64(io_channel channel, unsigned long long block, int count, void *buf)
+	REQUIRES(CHAN_OK(channel) && ATIME_ENTRY(PD(channel)) && coherent(PD(channel)) && channel->write_error == 0 && channel->read_error == 0 &&
+		 REQ_OK(channel, block, count))
+	REQUIRES(g_wfail == 0 && g_covered == (COVERS(channel, block, count) != 0) &&
+		 g_keep == (g_covered ? &BUF_AT(channel, block, count, buf) : (const unsigned char *)0))
+	ENSURES(coherent(PD(channel)))
+	ENSURES(RET != 0 || !g_covered || *g_keep == g_logical)
+	ENSURES(!g_wfail || RET != 0)
+	ENSURES(CHAN_OK(channel) && ALIGN_STEP(channel) && PD(channel)->access_time <= OLD(PD(channel)->access_time) + 32)
+	ASSIGNS(RW_FRAME(channel), __CPROVER_object_whole(buf));
+
+static unsigned char *UBUF;	/* the caller's buffer, exactly as long as the request */
+
+static void request_common(void)
+{
+	struct unix_private_data *data = &DATA;
+	ASSUME(REQ_OK(&CH, IN.block, IN.count));
+	ASSUME(!(CH.flags & CHANNEL_FLAGS_WRITETHROUGH) || !any_dirty(data));
+	UBUF = malloc(WR_SIZE(&CH, IN.count));
+	ASSUME(UBUF != 0);
+	g_covered = COVERS(&CH, IN.block, IN.count) != 0;
+}
 
 static void write_common(void)
 {
 	struct unix_private_data *data = &DATA;
-	ASSUME(IN.block < BLK_MAX && IN.bstar < BLK_MAX);
-	ASSUME(!(CH.flags & CHANNEL_FLAGS_WRITETHROUGH) || !any_dirty(data));
-	unsigned long long sz = WR_SIZE(&CH, IN.count);
-	UBUF = malloc(sz);
-	ASSUME(UBUF != 0);
-	g_block0 = IN.block; g_count0 = IN.count;
-	g_covered = COVERS(&CH, IN.block, IN.count) != 0;
+	request_common();
 	if (g_covered) {
 		UBUF[OFF_AT(&CH, IN.block)] = IN.newbyte;
 		g_new = IN.newbyte;
@@ -201,28 +245,55 @@ static void write_common(void)
 	CHECK(r == 0 || g_covered || (g_logical == old_logical && coherent(data)), "a failed write elsewhere leaves L* coherent");
 }
 
+static void read_common(void)
+{
+	struct unix_private_data *data = &DATA;
+	request_common();
+	g_keep = g_covered ? &UBUF[OFF_AT(&CH, IN.block)] : 0;
+	errcode_t r = unix_read_blk64(&CH, IN.block, IN.count, UBUF);
+	CHECK(r != 0 || !g_covered || UBUF[OFF_AT(&CH, IN.block)] == g_logical, "a read returns the byte most recently written at L*");
+	CHECK(coherent(data), "reading keeps the cache coherent with the device");
+	CHECK(!g_wfail || r != 0, "a failed write-back (eviction) is reported to the caller");
+}
+
+/* constants for the symbolic executor: the NOCACHE and direct-I/O branches fold away, the loop bound is exact */
+#ifdef CFG_COUNT
+#define CACHED_REQUEST() do { ASSUME(IN.count == CFG_COUNT); IN.count = CFG_COUNT; DATA.flags &= ~IO_FLAG_NOCACHE; } while (0)
+#else
+#define CACHED_REQUEST() do { ASSUME(IN.count >= 1 && IN.count <= WRITE_DIRECT_SIZE && !(DATA.flags & IO_FLAG_NOCACHE)); } while (0)
+#endif
+#define MAXBLK 64
+#define DIRECT_REQUEST() do { ASSUME(IN.count >= -(int)(MAXBLK * CFG_BS) && IN.count <= MAXBLK); \
+	ASSUME((DATA.flags & IO_FLAG_NOCACHE) || IN.count < 0 || IN.count > WRITE_DIRECT_SIZE); } while (0)
+
 void h_write_cached(void)
 {
 	build_channel();
-#ifdef CFG_COUNT
-	/* constants for the symbolic executor: the NOCACHE and direct-I/O branches fold away */
-	ASSUME(IN.count == CFG_COUNT);
-	IN.count = CFG_COUNT;
-	DATA.flags &= ~IO_FLAG_NOCACHE;
-#else
-	ASSUME(IN.count >= 1 && IN.count <= WRITE_DIRECT_SIZE);
-	ASSUME(!(DATA.flags & IO_FLAG_NOCACHE));
-#endif
+	CACHED_REQUEST();
 	write_common();
 	REACH("end");
 }
 
-#define MAXBLK 8
 void h_write_direct(void)
 {
 	build_channel();
-	ASSUME(IN.count != 0 && IN.count >= -(int)(MAXBLK * IN.block_size) && IN.count <= MAXBLK);
-	ASSUME((DATA.flags & IO_FLAG_NOCACHE) || IN.count < 0 || IN.count > WRITE_DIRECT_SIZE);
+	DIRECT_REQUEST();
 	write_common();
+	REACH("end");
+}
+
+void h_read_cached(void)
+{
+	build_channel();
+	CACHED_REQUEST();
+	read_common();
+	REACH("end");
+}
+
+void h_read_direct(void)
+{
+	build_channel();
+	DIRECT_REQUEST();
+	read_common();
 	REACH("end");
 }
